@@ -31,7 +31,7 @@ theorem setPart_other (parts : List (Option Part)) (n i : Nat) (p : Part) (h : i
 /-- an error from `PutObject` leaves the store as it was -/
 theorem put_err_unchanged (md5 : Bytes → Bytes) (m : Mem) (b : Bytes) (k : Key) (md : Meta) (body : Bytes) (c : ErrCode)
     (h : (m.put md5 b k md body).2 = .err c) : (m.put md5 b k md body).1 = m := by
-  unfold Mem.put at *
+  unfold Mem.put Mem.putCommit at *
   cases hb : SMap.find m.buckets b with
   | none => simp [hb]
   | some bk => simp [hb] at h
